@@ -68,6 +68,17 @@ HAMMER3 = {"threads": [[{"op": "reg", "r": "infix", "name": "divisibleByEleven",
            "mode": "hammer", "repeat": 3000}
 
 
+# an operator re-registered with precedence AND associativity changing together while others parse with it: whichever registration a
+# parse sees, the witnesses group the same way (36 and 16); a (precedence, associativity) pair that belongs to neither does not
+def _reg(name, prec, assoc, arith):
+    return {"op": "reg", "r": "infix", "name": name, "val": "h1", "prec": prec, "assoc": assoc, "arith": arith}
+V = lambda n: 'value:["num",false,[%d],0]' % n
+HAMMER4 = {"setup": [_reg("times", 10, "L", "mul"), _reg("over", 20, "L", "mul"), _reg("glue", 10, "L", "mul10add")],
+           "threads": [[_reg("glue", 20, "R", "mul10add"), _reg("glue", 10, "L", "mul10add")]] +
+                      [[{"op": "text", "text": "1 glue 2 times 3", "expect": V(36)}, {"op": "text", "text": "1 glue 2 over 3", "expect": V(16)}] for _ in range(4)],
+           "mode": "hammer", "repeat": 4000}
+
+
 def apalache(run):
     """Inductive invariant of the once-cell protocol for 8 threads (Apalache, symbolic): initiation, consecution, and
     IndInv => NoPartialInit.  TLC explores 2-3 threads; this closes the gap for the initialisation protocol."""
@@ -147,7 +158,15 @@ def check(run):
         elif summ.get("panics") or summ.get("impossible_results"):
             run.violation("C13/hammer", "with registrations overlapping in different tables, %d calls panicked and %d evaluations did not find the operator their own thread had just registered"
                           % (summ.get("panics", 0), summ.get("impossible_results", 0)), {"family": "engine", "scenario": HAMMER3, "summary": summ})
-    run.leg("R:hammer", runs=(8 if thorough else 3) + 2 * (4 if thorough else 2), threads=6)
+    for k in range(4 if thorough else 2):
+        evs, summ = eng.run_scenario(dict(HAMMER4, repeat=(20000 if thorough else 4000) + k), timeout=120)
+        run.traces += 1
+        if summ.get("deadlock") or summ.get("hung") or "aborted" in summ:
+            run.violation("C13/deadlock", "re-registration of precedence and associativity together under load did not finish: %s" % {k2: v for k2, v in summ.items() if k2 != "stderr"}, {"family": "engine", "scenario": HAMMER4, "summary": summ})
+        elif summ.get("panics") or summ.get("impossible_results"):
+            run.violation("C13/hammer", "while an operator alternated between (10, LEFT) and (20, RIGHT), %d evaluations grouped in a way neither registration gives (%d panics)"
+                          % (summ.get("impossible_results", 0), summ.get("panics", 0)), {"family": "engine", "scenario": HAMMER4, "summary": summ})
+    run.leg("R:hammer", runs=(8 if thorough else 3) + 3 * (4 if thorough else 2), threads=6)
     nsync = 0
     for sc in sync_scenarios():
         evs, summ = eng.run_scenario(sc, timeout=60)
